@@ -50,11 +50,11 @@ for t in ATYPS:
     G('da.dt_dadd_d.' + t[3:], 'date-core', 'dt_dadd_d', ARITH, fix={'in_typ': t}, call='dt_dadd_d(d, in_n)', ret='struct dt_d_s',
       replace=['__ymd_add_d', '__yd_add_d', '__ywd_add_d', '__daisy_add_d', '__daisy_to_ldn', '__daisy_to_mdn', '__ldn_to_daisy', '__mdn_to_daisy']
       + UNR('__jdn_to_daisy', '__daisy_to_jdn', '__ymcw_add_d', '__bizda_add_d'), solvers=SV, sweep={'in_n': '(int)(RND % 40000) - 20000'},
-      timeout=1500 if t == 'DT_YWD' else 600, tier='thorough' if t == 'DT_YWD' else 'quick', **DN_IN)
+      timeout=1500 if t == 'DT_YWD' else 600, tier='thorough' if t == 'DT_YWD' else 'quick', optional=(t == 'DT_YWD'), **DN_IN)
     G('da.dt_dadd_w.' + t[3:], 'date-core', 'dt_dadd_w', ARITH, fix={'in_typ': t}, call='dt_dadd_w(d, in_n)', ret='struct dt_d_s',
       replace=['__ymd_add_w', '__yd_add_w', '__ywd_add_w', '__daisy_add_w', '__daisy_to_ldn', '__daisy_to_mdn', '__ldn_to_daisy', '__mdn_to_daisy']
       + UNR('__jdn_to_daisy', '__daisy_to_jdn', '__ymcw_add_w', '__bizda_add_w'), solvers=SV, sweep={'in_n': '(int)(RND % 4000) - 2000'},
-      timeout=1500 if t == 'DT_YWD' else 600, tier='thorough' if t == 'DT_YWD' else 'quick', **DN_IN)
+      timeout=1500 if t == 'DT_YWD' else 600, tier='thorough' if t == 'DT_YWD' else 'quick', optional=(t == 'DT_YWD'), **DN_IN)
 # dt_dadd: the duration dispatcher, one group per (duration unit, calendar) case of its contract
 DADD_CASES = [('D', 'DT_DURD', t) for t in ('DT_YMD', 'DT_YD', 'DT_YWD', 'DT_DAISY', 'DT_LDN', 'DT_MDN')] + \
              [('W', 'DT_DURWK', t) for t in ('DT_YMD', 'DT_YD', 'DT_YWD', 'DT_DAISY', 'DT_LDN', 'DT_MDN')] + \
@@ -68,7 +68,7 @@ for nm, dt, t in DADD_CASES:
     G('da.dt_dadd.%s.%s' % (nm, t[3:]), 'date-core', 'dt_dadd', (ARITH if nm in ('D', 'W') else ['C04']), ins=[(U, 'in_typ'), ('uint32_t', 'in_u'), (U, 'in_dt'), ('int', 'in_n')], fix={'in_typ': t, 'in_dt': dt},
       setup='struct dt_d_s d = {DT_DUNK}; d.typ = (dt_dtyp_t)in_typ; d.u = in_u; struct dt_ddur_s dur = {DT_DURUNK}; dur.durtyp = (dt_durtyp_t)in_dt; dur.dv = in_n;',
       call='dt_dadd(d, dur)', ret='struct dt_d_s', replace=[cal] + UNR('dt_dadd_b', *[c for c in ('dt_dadd_d', 'dt_dadd_w', 'dt_dadd_m', 'dt_dadd_y') if c != cal]), solvers=SV,
-      timeout=1800 if SLOW(nm, t) else 600, tier='thorough' if SLOW(nm, t) else 'quick',
+      timeout=1800 if SLOW(nm, t) else 600, tier='thorough' if SLOW(nm, t) else 'quick', optional=SLOW(nm, t),
       needs={cal: r'\.%s$' % t[3:]}, sweep={'in_n': '(int)(RND % 4000) - 2000'})
 
 # dt_ddiff, day differences (DT_DURD)
@@ -82,5 +82,5 @@ for t1 in DTYPS:
           sweep={'in_u1': 'RND', 'in_u2': 'RND'})
 G('da.dt_ddiff.BD.DAISY', 'date-core', 'dt_ddiff', ['C07'], ins=[('uint32_t', 'in_u1'), ('uint32_t', 'in_u2'), ('int', 'in_carry')],
   setup='struct dt_d_s d1 = {DT_DUNK}; d1.typ = DT_DAISY; d1.u = in_u1; struct dt_d_s d2 = {DT_DUNK}; d2.typ = DT_DAISY; d2.u = in_u2;',
-  call='dt_ddiff(DT_DURBD, d1, d2, in_carry)', ret='struct dt_ddur_s', replace=['dt_conv_to_daisy', '__get_nbdays', '__daisy_get_wday'], solvers=SV, timeout=3000, tier='thorough',
+  call='dt_ddiff(DT_DURBD, d1, d2, in_carry)', ret='struct dt_ddur_s', replace=['dt_conv_to_daisy', '__get_nbdays', '__daisy_get_wday'], solvers=SV, timeout=3000, tier='thorough', optional=True,
   sweep={'in_u1': '1 + RND % 911280', 'in_u2': '1 + RND % 911280'})
